@@ -340,7 +340,33 @@ pub fn sys_lists(tier: Tier) -> Vec<Layout> {
         a2.array = Some(ArrayDecl { count: 2, stride: Some(8), colon: false });
         out.push(lay(b, vec![a1, a2]));
     }
+    out.extend(sys_wide_lists());
     dedup(out)
+}
+
+/// range lists with one entry longer than 64 bits (the width of the macro's own `usize`), in either position
+pub fn sys_wide_lists() -> Vec<Layout> {
+    let mut out = Vec::new();
+    let mk = |rs: Vec<(u32, u32)>, w: u32| Field {
+        name: "wl".into(),
+        kw_bit: false,
+        list: true,
+        ranges: rs.iter().map(|(lo, hi)| Rng { lo: *lo, hi: *hi, short: false }).collect(),
+        array: None,
+        ty: uty(w),
+        access: Access::RW,
+        arg_order: 0,
+        opt_path: 0,
+        huge: None,
+        zero_pad: false,
+    };
+    out.push(lay(128, vec![mk(vec![(0, 69), (100, 127)], 98), fld("g", 70, 30, uty(30), Access::RW)]));
+    out.push(lay(128, vec![mk(vec![(120, 127), (0, 99)], 108), fld("g", 100, 20, uty(20), Access::RW)]));
+    out.push(lay(128, vec![mk(vec![(0, 64), (66, 127)], 127)]));
+    out.push(lay(128, vec![mk(vec![(63, 127), (0, 0)], 66), fld("g", 1, 62, uty(62), Access::RW)]));
+    out.push(lay(100, vec![mk(vec![(30, 99), (0, 9)], 80), fld("g", 10, 20, uty(20), Access::RW)]));
+    out.push(lay(97, vec![mk(vec![(0, 7), (16, 96)], 89)]));
+    out
 }
 
 /// iN at bit 0 / interior / top for every base at least N wide; plain, array and list forms
@@ -444,6 +470,18 @@ pub fn sys_custom(tier: Tier) -> Vec<Layout> {
                     l.enums.push(e.clone());
                     out.push(l);
                 }
+                // arrays starting on a byte boundary whose stride is not a multiple of 8 (or of the width)
+                for (lo, gap) in [(0u32, 1u32), (8, 4), (0, 3)] {
+                    let stride = w + gap;
+                    if lo + 2 * stride + w <= b {
+                        let k = ((b - lo - w) / stride + 1).min(5);
+                        let mut a = fld("es", lo, *w, FieldTy::Enum { idx: 0, option: !plain }, Access::RW);
+                        a.array = Some(ArrayDecl { count: k, stride: Some(stride), colon: gap == 4 });
+                        let mut l = lay(b, vec![a]);
+                        l.enums.push(e.clone());
+                        out.push(l);
+                    }
+                }
             }
         }
         for w in &nested_w {
@@ -456,8 +494,19 @@ pub fn sys_custom(tier: Tier) -> Vec<Layout> {
                 fields.push(fld(&format!("n{}", k), *lo, *w, FieldTy::Nested { idx: 0 }, Access::RW));
             }
             let mut l = lay(b, fields);
-            l.inners.push(inner);
+            l.inners.push(inner.clone());
             out.push(l);
+            for (lo, gap) in [(0u32, 1u32), (8, 4), (0, 0)] {
+                let stride = w + gap;
+                if lo + 2 * stride + w <= b {
+                    let k = ((b - lo - w) / stride + 1).min(5);
+                    let mut a = fld("ns", lo, *w, FieldTy::Nested { idx: 0 }, Access::RW);
+                    a.array = Some(ArrayDecl { count: k, stride: if gap == 0 { None } else { Some(stride) }, colon: false });
+                    let mut l = lay(b, vec![a]);
+                    l.inners.push(inner.clone());
+                    out.push(l);
+                }
+            }
         }
     }
     out
@@ -499,6 +548,7 @@ pub fn corpus(prop: &str, tier: Tier, seed: u64) -> Vec<(usize, Layout)> {
             v.extend(random(&q, seed, 3, nrand / 2));
             v.extend(sys_signed(Tier::Quick).into_iter().step_by(3));
             v.extend(sys_lists(Tier::Quick).into_iter().step_by(5));
+            v.extend(sys_wide_lists());
         }
         "C03" => {
             v.extend(sys_arrays(tier));
@@ -666,6 +716,33 @@ pub fn corpus(prop: &str, tier: Tier, seed: u64) -> Vec<(usize, Layout)> {
                 a.array = Some(ArrayDecl { count: b / 4, stride: None, colon: false });
                 v.push(lay(b, vec![a]));
             }
+            // strided arrays with gaps whose count * stride is exactly the base width: the gaps hold default
+            // bits, or other fields written earlier / later in the builder chain
+            for b in [8u32, 16, 32, 64, 128, 24, 12] {
+                for (w, stride) in [(1u32, 2u32), (3, 4), (2, 8), (4, 8)] {
+                    if b % stride != 0 || b / stride < 2 {
+                        continue;
+                    }
+                    let k = b / stride;
+                    for at0 in [true, false] {
+                        let lo = if at0 { 0 } else { stride - w };
+                        let mut a = fld("arr", lo, w, uty(w), Access::RW);
+                        a.array = Some(ArrayDecl { count: k, stride: Some(stride), colon: false });
+                        // gaps filled by a second array, declared before / after
+                        let glo = if at0 { w } else { 0 };
+                        let mut g = fld("gap", glo, stride - w, uty(stride - w), Access::W);
+                        g.array = Some(ArrayDecl { count: k, stride: Some(stride), colon: false });
+                        v.push(lay(b, vec![g.clone(), a.clone()]));
+                        v.push(lay(b, vec![a.clone(), g]));
+                        // gaps not covered by any field: they keep the default
+                        let mut d = lay(b, vec![a]);
+                        d.default = Some(DefaultDecl { value: mask(b), named_const: false, radix: 16, const_name: None });
+                        v.push(d.clone());
+                        d.default = Some(DefaultDecl { value: mask(b) / 5 * 3, named_const: false, radix: 10, const_name: None });
+                        v.push(d);
+                    }
+                }
+            }
             // complete coverage of arbitrary bases without default
             for b in [1u32, 7, 9, 17, 33, 65, 127] {
                 v.push(lay(b, vec![fld("all", 0, b, uty(b), Access::RW)]));
@@ -752,7 +829,8 @@ pub fn corpus(prop: &str, tier: Tier, seed: u64) -> Vec<(usize, Layout)> {
             v.extend(random(&Profile::general(), seed, 1, nrand));
         }
     }
-    v.into_iter().enumerate().collect()
+    // never a declaration in which two generated methods would share a name (rustc rejects those itself)
+    v.into_iter().filter(|l| rules::api_name_collision(l).is_none()).enumerate().collect()
 }
 
 /// bitenum corpus for C07: every N in 1..=64, exhaustive / non-exhaustive / conditional
